@@ -59,11 +59,15 @@ func c01Scenario(h http.Handler, kind int, integrity bool) {
 	names := []string{"Content-Type", "Content-Encoding", "Content-Disposition", "X-Amz-Meta-A"}
 	if vsym.Param("fullmeta", 0) == 1 {
 		// every subset of the metadata headers
-		for _, name := range names {
-			if vsym.Choice("has-"+name, 2) == 1 {
+		for i, name := range names {
+			switch vsym.Choice("has-"+name, 2+i/3) { // the user metadata header may also be sent empty
+			case 1:
 				v := vsym.String("v-"+name, 1)
 				meta[name] = v
 				hdr.Set(name, v)
+			case 2:
+				meta[name] = ""
+				hdr.Set(name, "")
 			}
 		}
 	} else {
@@ -78,7 +82,7 @@ func c01Scenario(h http.Handler, kind int, integrity bool) {
 		}
 	}
 	if vsym.Choice("prior", 2) == 1 { // an older object at the key, with other metadata
-		vsym.Assert(Do(h, BodyReq("PUT", "/bkt/"+key, http.Header{"X-Amz-Meta-Old": {"o"}}, []byte("previous"))).Code() == 200, "C01/prior-put")
+		vsym.Assert(Do(h, BodyReq("PUT", "/bkt/"+key, http.Header{"X-Amz-Meta-Old": {"o"}, "X-Amz-Meta-A": {"prior-a"}}, []byte("previous"))).Code() == 200, "C01/prior-put")
 	}
 	switch vsym.Choice("path", 4) {
 	case 3: // PUT with the aws-chunked (SigV4 streaming) framing: the payload is what is stored
